@@ -1,0 +1,64 @@
+// Copyright 2020-2025 Buf Technologies, Inc.
+//
+// Licensed under the Apache License, Version 2.0 (the "License");
+// you may not use this file except in compliance with the License.
+// You may obtain a copy of the License at
+//
+//      http://www.apache.org/licenses/LICENSE-2.0
+//
+// Unless required by applicable law or agreed to in writing, software
+// distributed under the License is distributed on an "AS IS" BASIS,
+// WITHOUT WARRANTIES OR CONDITIONS OF ANY KIND, either express or implied.
+// See the License for the specific language governing permissions and
+// limitations under the License.
+
+//go:build verif
+
+package bufconnect
+
+// Contracts for the gocv verifier (see /verif/DESIGN.md), author ca-W. Comment-only.
+// Spec functions w_tokOf / w_hostOf / w_elemOK (one token@host element): /verif/specs/C19_C20_extra.spec.
+//
+// C19: the exported constructors of token providers. The environment provider is built from the value of BUF_TOKEN and
+// nothing else; a malformed value is an error (no provider); the provider remembers that it came from the environment
+// (this is what the "BUF_TOKEN is not valid for <host>" diagnostic is derived from - never the token itself).
+//
+//@ func NewTokenProviderFromContainer(container) (r, err)
+//@   property C19
+//@   modifies heap
+//@   ensures unset-no-token: container.Env("BUF_TOKEN") == "" ==> err == nil && typeOf(r) == typeId(nopTokenProvider)
+//@   ensures host-less-token: container.Env("BUF_TOKEN") != "" && !contains(container.Env("BUF_TOKEN"), ",") && !contains(container.Env("BUF_TOKEN"), "@") ==> err == nil && typeOf(r) == typeId(*singleTokenProvider) && cast(*singleTokenProvider, r).token == container.Env("BUF_TOKEN") && cast(*singleTokenProvider, r).setBufTokenEnvVar
+//@   ensures per-host-tokens: (contains(container.Env("BUF_TOKEN"), ",") || contains(container.Env("BUF_TOKEN"), "@")) && err == nil ==> typeOf(r) == typeId(*multipleTokenProvider) && cast(*multipleTokenProvider, r).isFromEnvVar && (forall h string :: h in cast(*multipleTokenProvider, r).addressToToken ==> (exists j int :: 0 <= j && j < len(strings.Split(container.Env("BUF_TOKEN"), ",")) && strings.Split(container.Env("BUF_TOKEN"), ",")[j] == cast(*multipleTokenProvider, r).addressToToken[h] + "@" + h))
+//@   ensures malformed-is-an-error: (contains(container.Env("BUF_TOKEN"), ",") || contains(container.Env("BUF_TOKEN"), "@")) && (exists j int :: 0 <= j && j < len(strings.Split(container.Env("BUF_TOKEN"), ",")) && !w_elemOK(strings.Split(container.Env("BUF_TOKEN"), ",")[j])) ==> err != nil
+//@   ensures repeated-host-is-an-error: (contains(container.Env("BUF_TOKEN"), ",") || contains(container.Env("BUF_TOKEN"), "@")) && (exists i int, j int :: 0 <= i && i < j && j < len(strings.Split(container.Env("BUF_TOKEN"), ",")) && w_hostOf(strings.Split(container.Env("BUF_TOKEN"), ",")[i]) == w_hostOf(strings.Split(container.Env("BUF_TOKEN"), ",")[j])) ==> err != nil
+//@   ensures well-formed-is-accepted: (contains(container.Env("BUF_TOKEN"), ",") || contains(container.Env("BUF_TOKEN"), "@")) && (forall j int :: 0 <= j && j < len(strings.Split(container.Env("BUF_TOKEN"), ",")) ==> w_elemOK(strings.Split(container.Env("BUF_TOKEN"), ",")[j])) && (forall i int, j int :: 0 <= i && i < j && j < len(strings.Split(container.Env("BUF_TOKEN"), ",")) ==> w_hostOf(strings.Split(container.Env("BUF_TOKEN"), ",")[i]) != w_hostOf(strings.Split(container.Env("BUF_TOKEN"), ",")[j])) ==> err == nil
+//@   canary ensures err != nil
+//
+// The same for an explicit token string (buf registry login --token-stdin etc.): not from the environment.
+//@ func NewTokenProviderFromString(token) (r, err)
+//@   property C19
+//@   modifies heap
+//@   ensures empty-no-token: token == "" ==> err == nil && typeOf(r) == typeId(nopTokenProvider)
+//@   ensures host-less-token: token != "" && !contains(token, ",") && !contains(token, "@") ==> err == nil && typeOf(r) == typeId(*singleTokenProvider) && cast(*singleTokenProvider, r).token == token && !cast(*singleTokenProvider, r).setBufTokenEnvVar
+//@   ensures per-host-tokens: (contains(token, ",") || contains(token, "@")) && err == nil ==> typeOf(r) == typeId(*multipleTokenProvider) && !cast(*multipleTokenProvider, r).isFromEnvVar && (forall h string :: h in cast(*multipleTokenProvider, r).addressToToken ==> (exists j int :: 0 <= j && j < len(strings.Split(token, ",")) && strings.Split(token, ",")[j] == cast(*multipleTokenProvider, r).addressToToken[h] + "@" + h))
+//@   ensures malformed-is-an-error: (contains(token, ",") || contains(token, "@")) && (exists j int :: 0 <= j && j < len(strings.Split(token, ",")) && !w_elemOK(strings.Split(token, ",")[j])) ==> err != nil
+//
+// The .netrc provider keeps the container and the lookup function it is given (RemoteToken, verified in
+// zz_verif_contracts.go, calls exactly that function with exactly that container and the requested address).
+//@ func NewNetrcTokenProvider(container, getMachineForName) (r)
+//@   property C19
+//@   ensures keeps-its-arguments: r != nil && typeOf(r) == typeId(*netrcTokenProvider) && cast(*netrcTokenProvider, r).container == container && cast(*netrcTokenProvider, r).getMachineForName == getMachineForName
+//
+// Where a token came from (only this bit, never the token, reaches the AuthError of the interceptor).
+//@ pure func (t *singleTokenProvider) IsFromEnvVar() (r)
+//@   property C19
+//@   ensures r == t.setBufTokenEnvVar
+//@ pure func (m *multipleTokenProvider) IsFromEnvVar() (r)
+//@   property C19
+//@   ensures r == m.isFromEnvVar
+//@ pure func (nt *netrcTokenProvider) IsFromEnvVar() (r)
+//@   property C19
+//@   ensures !r
+//@ pure func (nopTokenProvider) IsFromEnvVar() (r)
+//@   property C19
+//@   ensures !r
